@@ -750,6 +750,22 @@ pub fn generate(s: &mut Session, thorough: bool) -> bool {
             }
         }
     }
+    // lengths that equal a valid length modulo 2^8 / 2^16 (a length or count compared after a narrowing
+    // cast): bytes inserted in front of the footer and appended behind it
+    for base in small_valid.iter().take(3) {
+        for extra in [256usize, 65536, 2 * 65536] {
+            let l = base.len();
+            let mut b = base.clone();
+            b.resize(l + extra, 0);
+            add(s, "length-wrap", &b);
+            if l > 36 {
+                let mut b = base[..l - 4].to_vec();
+                b.extend(std::iter::repeat(0u8).take(extra));
+                b.extend(&base[l - 4..]);
+                add(s, "length-wrap", &b);
+            }
+        }
+    }
     for len in 0..=180usize {
         add(s, "length", &vec![0u8; len]);
         let mut b = vec![0u8; len];
